@@ -333,3 +333,30 @@ def sorted_then_sequences(full):
         if ok:
             out.append(p)
     return out
+
+
+def op_sequences(full=False, leaf_engine=SQL, xfer_to=None):
+    """Deterministic: every well-typed sequence of up to three operations (with ``full``: four) drawn from deduplication,
+    two nested projections (the second drops the sort column), a descending sort, a window and a selection — plus the
+    four-operation sequences that hold a deduplication, a sort and the narrow projection — over a three-column leaf
+    (optionally transferred to another engine first)."""
+    import itertools
+    a, b, c = K(1), K(2), K(3)
+    ops = {"D": ("dedup",), "Pac": ("proj", [a, c]), "Pa": ("proj", [a]), "Sc": ("sort", [(("ref", c), False)]),
+           "W": ("slice", 0, 2), "F": ("sel", ("cmp", "ge", ("ref", a), ("lit", 0)))}
+    need = {"D": set(), "Pac": {a, c}, "Pa": {a}, "Sc": {c}, "W": set(), "F": {a}}
+    seqs = [q for k in (1, 2, 3) for q in itertools.product(ops, repeat=k)]
+    seqs += [q for q in itertools.product(ops, repeat=4) if full or {"D", "Sc", "Pa"} <= set(q)]
+    leaf = ("leaf", 1, leaf_engine, [a, b, c], [{a: 1, b: 2, c: 3}, {a: 1, b: 2, c: 1}, {a: 0, b: 5, c: 2}, {a: 1, b: 2, c: 3}], (0, None))
+    base = leaf if xfer_to is None else ("xfer", xfer_to, leaf)
+    out = []
+    for q in seqs:
+        p, cur, ok = base, {a, b, c}, True
+        for o in q:
+            ok &= need[o] <= cur
+            if o in ("Pac", "Pa"):
+                cur = set(ops[o][1])
+            p = ("un", ops[o], mp.DEFAULT, p)
+        if ok:
+            out.append(p)
+    return out
